@@ -5,6 +5,7 @@ Not decided: the exact accept/reject set over all layouts as a whole (it is the
 conjunction of the predicates checked here, given the loop shapes); address
 overflow base+size."""
 from .. import cast, sym, lin
+from .common import distinct_enums
 from ..sym import C, fmt, linearize as L
 from ..lin import Lin
 from .regs import Regs, T, strip_cast, size_facts, scan_rule, for_headers
@@ -499,6 +500,43 @@ def link_gate(ck, R, eng, ps):
                'entries are linked (area/offset written) in register_init only after reg_entry_is_in_memory accepted them' if bad is None and nlink else (bad or 'no link store found in register_init'))
 
 
+def flag_bits(ck, R):
+    """C04.a (representation): every flag enumerator is one distinct bit that fits the `flags` field it is stored in.
+    A flag beyond the field's width can never be set: BIT_SET stores nothing, BIT_ISSET never holds (for DURING_INIT this
+    makes every constant register's default fail, i.e. a well-formed table is refused)."""
+    u = R.u
+    for prefix, rec in (('REG_TF_', 'RegisterTable'), ('REG_AF_', 'RegisterArea')):
+        vals = {n: v for n, v in u.enums.items() if n.startswith(prefix)}
+        r = None
+        for nm, node in u.records.items():
+            pass
+        width = None
+        for nm, node in u.records.items():
+            fields = {f.get('name'): f for f in cast.inner(node) if f.get('kind') == 'FieldDecl'}
+            tdn = nm
+            if 'flags' in fields and (rec.lower() in nm.lower().replace('_', '') or
+                                      any(rec == k for k, v in getattr(u, 'typedefs', {}).items() if nm in str(v))):
+                from .. import bitdom
+                ti = bitdom.type_info(bitdom.resolve_typedefs(u, cast.qual_type(fields['flags'])))
+                if ti and len(ti) == 3:
+                    width = ti[0]
+        if not vals or width is None:
+            ck.broken('C04.a', 'flags:' + prefix, 'include/ufw/register-table.h', 'flag enumerators %s / flags field width %s not found' % (sorted(vals), width))
+            continue
+        bad = None
+        seen = {}
+        for n, v in sorted(vals.items()):
+            if v <= 0 or v & (v - 1):
+                bad = bad or '%s = %#x is not a single bit' % (n, v)
+            elif v >= (1 << width):
+                bad = bad or '%s = %#x does not fit the %d-bit flags field: it can never be set or seen' % (n, v, width)
+            elif v in seen:
+                bad = bad or '%s and %s share bit %#x' % (n, seen[v], v)
+            seen[v] = n
+        ck.verdict(bad is None, 'C04.a', 'flags:' + prefix, 'include/ufw/register-table.h',
+                   '%d flags, each one distinct bit inside the %d-bit field' % (len(vals), width) if bad is None else bad)
+
+
 def run(ck):
     ck.rule('C04.a', 'flags: every failing return of register_init leaves INITIALISED=0 and DURING_INIT=0, success leaves 1/0 (bit evaluation of the flag expression per path; nothing else assigns the flags)')
     ck.rule('C04.b', 'gate: every public operation tests INITIALISED first and answers UNINITIALISED without touching the table')
@@ -508,10 +546,12 @@ def run(ck):
     ck.rule('C04.f', 'clear/default: memory-backed areas zeroed before defaults; defaults through the checked setter iff write callback and not SKIP_DEFAULTS; refused default fails initialisation')
     ck.not_decided += ['the exact accept/reject set over all layouts as a whole', 'address overflow of base + size']
     R = Regs(ck)
+    distinct_enums(ck, R.u, 'C04.c', ('REG_INIT_',), 'include/ufw/register-table.h')
     eng = sym.Engine(R.u, sizeof=R.so, inline={'need_to_load_default'})
     for_headers(R, 'C04.c', 'register_init', [(1, 'areas'), (1, 'entries'), (0, 'areas'), (0, 'entries'), (0, 'areas')])
     scan_rule(R, 'C04.d', 'reg_entry_is_in_memory', 'areas')
     scan_rule(R, 'C04.e', 'ra_first_entry_of_next', 'entries', ('v', 'start'))
+    flag_bits(ck, R)
     ps = R.paths('register_init', 'C04.a', eng)
     if ps is not None:
         link_gate(ck, R, eng, ps)
